@@ -38,7 +38,8 @@ func (c02) Decode(raw json.RawMessage) (any, error) {
 	return &s, err
 }
 
-var tagVocab = []string{"app", "biz", "rpc", "svc", "db1", "kk9"}
+// some segments are string prefixes of others: a wildcard P_* must match on whole segments only
+var tagVocab = []string{"app", "appx", "biz", "rpc", "db1", "db12"}
 
 func genTagName(rt *rapid.T) string {
 	n := rapid.IntRange(1, 4).Draw(rt, "segs")
